@@ -620,6 +620,236 @@ def register_whole(R):
                        hints={"post/every-handle-is-a-node-with-two-or-more-children": gfw_hint}),
           notes="whole function, trees of any size (traverse client rule); the input tree is frozen")
 
+    # ================================================================ Tree.get_paths as a whole
+    # property: "There is exactly one root-to-tip path per tip".  Values handed through the traversal: enter -> the root-to-node chain
+    # (an int list, shared by the children: frozen), leave -> the list of the paths of the tips below the node (children in table order).
+    # Ghost vocabulary (immutable functions; each is DEFINED where its value is determined):
+    #   cp8(x, j)   entry j of the chain registered for x    (defined by ghost code right after the real `enter` call of x)
+    #   hn8(x), hl8(x, i), hp8(x, t)   history of the leave call of x: number of paths it returned, tip of its i-th path, position of
+    #                                  tip t in it            (defined by ghost code right after the real `leave` call of x)
+    from contracts.C04 import depth as d8
+
+    cp8 = z3.Function("cp8", I_, I_, I_)
+    hn8 = z3.Function("hn8", I_, I_)
+    hl8 = z3.Function("hl8", I_, I_, I_)
+    hp8 = z3.Function("hp8", I_, I_, I_)
+
+    def gp_setup(S):
+        return dict(self=wf_tree8(S))
+
+    def pd_view(d):
+        if d.items is not None:
+            if d.items:
+                raise X.Unsupported("path_dic: concrete non-empty dict")
+            return z3.K(I_, z3.BoolVal(False)), z3.K(I_, z3.K(I_, z3.IntVal(0))), z3.K(I_, z3.IntVal(0))
+        return d.dom, d.val, d.lens
+
+    def gp_ghost_enter(E, v, x, ctx):
+        """definition of the chain function of THE node just entered (x is entered exactly once; nothing speaks about cp8(x, .) before)"""
+        ret = E.ghost["traverse-last-call"]["ret"]
+        if not (isinstance(ret, PList) and not isinstance(ret, X.LList) and (ret.items is not None or ret.kinds == ["int"])):
+            raise X.Unsupported("get_paths: the enter callback returned something that is not an int list")
+        A, ln = list_view8(ret)
+        j = z3.Int(fresh_name("j"))
+        E.assume(z3.ForAll([j], cp8(x, j) == sel(A, j)))
+        E.assumptions.add("ghost definition per enter call of get_paths: cp8(x, j) = entry j of the list the callback returned for x")
+
+    def chain_facts(node, dn, P, R_, root, j):
+        """the chain function of `node` (depth dn) describes a root-to-node chain: (per-node facts, per-position facts, per-edge facts)"""
+        return (z3.And(cp8(node, 0) == root, cp8(node, dn) == node),
+                z3.And(R_(cp8(node, j)), d8(cp8(node, j)) == j),
+                sel(P, cp8(node, j)) == cp8(node, j - 1))
+
+    def gp_J(E, v, ENT, LEFT, ctx):
+        dom, val, lens = pd_view(v["path_dic"])
+        P, R_ = ctx.P, ctx.R
+        y, j, t = z3.Int(fresh_name("y")), z3.Int(fresh_name("j")), z3.Int(fresh_name("t"))
+        ent, left = (lambda a: z3.simplify(sel(ENT, a))), (lambda a: z3.simplify(sel(LEFT, a)))  # beta-reduced: no lambda / store terms in the formulas
+        upto = z3.And(0 <= j, j <= d8(y))
+        ends, nodes, edges = chain_facts(y, d8(y), P, R_, ctx.root, j)
+        return [
+            # the registry holds, for every entered node, its root-to-node chain
+            ("every-entered-node-is-registered-with-a-chain-of-its-depth-from-the-root-to-itself",
+             z3.ForAll([y], z3.Implies(ent(y), z3.And(sel(dom, y), sel(lens, y) == d8(y) + 1, ends)))),
+            ("chain-entries-are-nodes-at-the-depth-of-their-position", z3.ForAll([y, j], z3.Implies(z3.And(ent(y), upto), nodes))),
+            ("registered-chain-entries-are-the-chain-entries", z3.ForAll([y, j], z3.Implies(z3.And(ent(y), upto), sel(sel(val, y), j) == cp8(y, j)))),
+            ("consecutive-chain-entries-are-parent-and-child", z3.ForAll([y, j], z3.Implies(z3.And(ent(y), 1 <= j, j <= d8(y)), edges), patterns=[sel(P, cp8(y, j))])),
+            ("a-node-below-a-left-node-is-left", z3.ForAll([y, j], z3.Implies(z3.And(ent(y), upto, left(cp8(y, j))), left(y)))),
+            ("the-value-of-a-left-node-lists-every-entered-tip-below-it",
+             z3.ForAll([y, t], z3.Implies(z3.And(left(y), ent(t), ctx.nkids(t) == 0, d8(t) >= d8(y), cp8(t, d8(y)) == y),
+                                          z3.And(0 <= hp8(y, t), hp8(y, t) < hn8(y), hl8(y, hp8(y, t)) == t))))]
+
+    def gp_Qe(E, v, x, val, ctx):
+        if not (isinstance(val, PList) and not isinstance(val, X.LList) and (val.items is not None or val.kinds == ["int"])):
+            return False
+        A, ln = list_view8(val)
+        j = z3.Int(fresh_name("j"))
+        return z3.And(ln == d8(x) + 1, z3.ForAll([j], z3.Implies(z3.And(0 <= j, j <= d8(x)), sel(A, j) == cp8(x, j))))
+
+    def gp_Ql(E, v, x, val, ctx):
+        vw = X.ll_view(val)
+        if vw is None:
+            return False
+        V, L, n = vw
+        i, j = z3.Int(fresh_name("i")), z3.Int(fresh_name("j"))
+        ti = hl8(x, i)
+        ini = z3.And(0 <= i, i < n)
+        ends, nodes, edges = chain_facts(ti, d8(ti), ctx.P, ctx.R, ctx.root, j)
+        return [
+            ("as-many-paths-as-recorded-at-least-one", z3.And(n == hn8(x), n >= 1)),
+            ("every-path-ends-at-a-tip-below-the-node-each-tip-at-its-position",
+             z3.ForAll([i], z3.Implies(ini, z3.And(ctx.R(ti), ctx.nkids(ti) == 0, sel(L, i) == d8(ti) + 1, d8(ti) >= d8(x), hp8(x, ti) == i, cp8(ti, d8(x)) == x, ends)))),
+            ("every-path-is-the-chain-of-its-tip",
+             z3.ForAll([i, j], z3.Implies(z3.And(ini, 0 <= j, j <= d8(ti)), z3.And(sel(sel(V, i), j) == cp8(ti, j), nodes)))),
+            ("consecutive-entries-of-every-path-are-parent-and-child",
+             z3.ForAll([i, j], z3.Implies(z3.And(ini, 1 <= j, j <= d8(ti)), edges), patterns=[sel(ctx.P, cp8(ti, j))]))]
+
+    def gp_ghost_leave(E, v, x, ctx):
+        """definitions of the history functions of THIS leave call (x is left exactly once; nothing else speaks about hn8(x), hl8(x, .), hp8(x, .))"""
+        call = E.ghost["traverse-last-call"]
+        vw = X.ll_view(call["ret"])
+        if vw is None:
+            raise X.Unsupported("get_paths: the leave callback returned something that is not a list of int lists")
+        V, L, n = vw
+        i, t = z3.Int(fresh_name("i")), z3.Int(fresh_name("t"))
+        E.assume(hn8(x) == n)
+        E.assume(z3.ForAll([i], hl8(x, i) == sel(sel(V, i), sel(L, i) - 1)))
+        lc = E.ghost.get("last-chain")
+        if lc is not None and lc["src"] is call["args"] and lc["out"].cols[0].eq(V):
+            c = cp8(t, d8(x) + 1)
+            off, seg, K = lc["off"], lc["seg"], lc["K"]
+            E.assume(z3.ForAll([t], hp8(x, t) == off(ctx.rank(c)) + hp8(c, t)))
+            # proof steps (each its own obligation): where the entries of the concatenation come from
+            ns = call["args"].cols[2]
+            ini = z3.And(0 <= i, i < off(K))
+            k_, i_ = seg(i), i - off(seg(i))
+            kd = ctx.kid(x, k_)
+            st = lambda nm, f: E.prove(f"Tree.get_paths/step/{nm}", f, "annotation")
+            st("a-node-that-is-not-a-tip-has-a-first-child-whose-value-has-a-path", z3.And(K >= 1, sel(ns, 0) == hn8(ctx.kid(x, 0)), sel(ns, 0) >= 1))
+            st("the-first-child-contributes-a-path", z3.And(off(1) == sel(ns, 0), off(1) <= off(K)))
+            st("every-position-lies-in-the-segment-of-one-child", z3.ForAll([i], z3.Implies(ini, z3.And(0 <= k_, k_ < K, 0 <= i_, i_ < sel(ns, k_), sel(ns, k_) == hn8(kd)))))
+            st("the-tip-of-an-entry-is-the-tip-recorded-for-the-child", z3.ForAll([i], z3.Implies(ini, hl8(x, i) == hl8(kd, i_))))
+            st("the-chain-of-an-entry-passes-through-its-child", z3.ForAll([i], z3.Implies(ini, z3.And(d8(kd) == d8(x) + 1, cp8(hl8(x, i), d8(x) + 1) == kd))))
+        else:
+            E.assume(z3.ForAll([t], hp8(x, t) == 0))
+        E.assumptions.add("ghost definitions per leave call of get_paths: hn8(x) = number of returned paths, hl8(x, i) = last entry of the i-th, hp8(x, t) = offset of the child towards t + position of t in that child's value (0 at a tip)")
+
+    def no_child(t, x):
+        r = z3.Int(fresh_name("r"))
+        return z3.ForAll([r], z3.Implies(z3.And(0 <= r, r < nof(t)), sel(col(t, "pid").arr, r) != sel(col(t, "id").arr, x)))
+
+    def gp_paths(v, o):
+        from swcgeom.core.tree import Tree
+
+        res = v["result"]
+        if not (isinstance(res, X.ObjList) and res.cls_ is Tree.Path and res.vnames == [] and list(res.avarying) == ["idx"] and res.avarying["idx"][2] == "int"):
+            return None
+        return res
+
+    def gp_post(which):
+        def f(E, v, o):
+            t = o["self"]
+            res = gp_paths(v, o)
+            if res is None:
+                return False
+            E.ghost["gp-result"] = res
+            if which == "paths-attached-to-this-tree":
+                return res.fixed.get("attach") is v["self"] and res.fixed.get("names") is t.fields["names"]
+            IDX, LEN, _ = res.avarying["idx"]
+            P, n, m = col(t, "pid").arr, nof(t), zint(res.n)
+            i, i2, j, x = (z3.Int(fresh_name(a)) for a in ("i", "i2", "j", "x"))
+            ini = z3.And(0 <= i, i < m)
+            at = lambda a, b: sel(sel(IDX, a), b)
+            last = lambda a: at(a, sel(LEN, a) - 1)
+            if which == "every-path-starts-at-the-root":
+                return z3.ForAll([i], z3.Implies(ini, z3.And(sel(LEN, i) >= 1, at(i, 0) == 0)))
+            if which == "consecutive-entries-are-parent-and-child":
+                return z3.ForAll([i, j], z3.Implies(z3.And(ini, 1 <= j, j < sel(LEN, i)), z3.And(0 <= at(i, j), at(i, j) < n, sel(P, at(i, j)) == at(i, j - 1))))
+            if which == "every-path-ends-at-a-childless-node":
+                return z3.ForAll([i], z3.Implies(ini, z3.And(0 <= last(i), last(i) < n, no_child(t, last(i)))))
+            if which == "every-childless-node-ends-a-path":
+                return z3.ForAll([x], z3.Implies(z3.And(0 <= x, x < n, no_child(t, x)), z3.Exists([i], z3.And(ini, last(i) == x))))
+            if which == "one-path-per-tip":
+                return z3.ForAll([i, i2], z3.Implies(z3.And(0 <= i, i < i2, i2 < m), last(i) != last(i2)))
+            raise KeyError(which)
+
+        return f
+
+    def gp_post_vocab(E, vars):
+        ctx = E.ghost["last-traverse-ctx"]
+        res = E.ghost["gp-result"]
+        IDX, LEN, _ = res.avarying["idx"]
+        last = lambda a: sel(sel(IDX, a), sel(LEN, a) - 1)
+        st = lambda nm, f: E.prove(f"Tree.get_paths/step/{nm}", f, "annotation")
+        return ctx, vars["self"], zint(res.n), last, st
+
+    def gp_hint(E, vars):
+        ctx, t, m, last, st = gp_post_vocab(E, vars)
+        P, n = col(t, "pid").arr, nof(t)
+        x, r, i = z3.Int(fresh_name("x")), z3.Int(fresh_name("r")), z3.Int(fresh_name("i"))
+        st("no-row-names-a-node-without-children-as-parent", z3.ForAll([x, r], z3.Implies(z3.And(ctx.R(x), ctx.nkids(x) == 0, 0 <= r, r < n), sel(P, r) != x)))
+        st("the-last-entry-of-a-path-is-its-recorded-tip", z3.ForAll([i], z3.Implies(z3.And(0 <= i, i < m), last(i) == hl8(0, i))))
+
+    def gp_hint_complete(E, vars):
+        ctx, t, m, last, st = gp_post_vocab(E, vars)
+        P = col(t, "pid").arr
+        x = z3.Int(fresh_name("x"))
+        st("a-node-with-children-is-named-as-parent-by-its-first-child", z3.ForAll([x], z3.Implies(z3.And(ctx.R(x), ctx.nkids(x) > 0), z3.And(ctx.R(ctx.kid(x, 0)), sel(P, ctx.kid(x, 0)) == x))))
+        st("every-chain-starts-at-the-root", z3.ForAll([x], z3.Implies(ctx.R(x), cp8(x, 0) == 0)))
+        st("depths-are-not-negative", z3.ForAll([x], z3.Implies(ctx.R(x), d8(x) >= d8(0))))
+        st("every-tip-has-a-position-whose-path-ends-at-it", z3.ForAll([x], z3.Implies(z3.And(ctx.R(x), ctx.nkids(x) == 0), z3.And(0 <= hp8(0, x), hp8(0, x) < m, last(hp8(0, x)) == x))))
+        st("every-childless-node-has-a-position-whose-path-ends-at-it",
+           z3.ForAll([x], z3.Implies(z3.And(ctx.R(x), no_child(t, x)), z3.And(0 <= hp8(0, x), hp8(0, x) < m, last(hp8(0, x)) == x)), patterns=[sel(col(t, "id").arr, x)]))
+
+    def gp_hint_below(E, vars):
+        """leave step: a node whose chain passes through the node being left, strictly below it, passes through one of its (left) children"""
+        call, ctx = E.ghost["traverse-last-call"], E.ghost["last-traverse-ctx"]
+        x, ENT, LEFT = call["x"], call["ENT"], call["LEFT"]
+        y, j = z3.Int(fresh_name("y")), z3.Int(fresh_name("j"))
+        c = cp8(y, j + 1)
+        E.prove("Tree.get_paths/step/below-the-node-being-left-means-below-one-of-its-children",
+                z3.ForAll([y, j], z3.Implies(z3.And(sel(ENT, y), 0 <= j, j < d8(y), cp8(y, j) == x), z3.And(sel(ctx.P, c) == x, ctx.R(c), sel(LEFT, c)))), "annotation")
+
+    def gp_hint_leave(E, vars):
+        """leave step, node with children: an entered tip below the node lies below exactly one child, whose value lists it"""
+        call, lc, ctx = E.ghost["traverse-last-call"], E.ghost.get("last-chain"), E.ghost["last-traverse-ctx"]
+        if lc is None or lc["src"] is not call["args"]:
+            return
+        x, ENT = call["x"], call["ENT"]
+        off, seg, K, ns = lc["off"], lc["seg"], lc["K"], call["args"].cols[2]
+        t = z3.Int(fresh_name("t"))
+        c = cp8(t, d8(x) + 1)
+        r = ctx.rank(c)
+        below = z3.And(sel(ENT, t), ctx.nkids(t) == 0, d8(t) >= d8(x), cp8(t, d8(x)) == x)
+        st = lambda nm, f: E.prove(f"Tree.get_paths/step/{nm}", z3.ForAll([t], z3.Implies(below, f)), "annotation")
+        st("a-tip-below-a-node-with-children-lies-below-one-of-the-children",
+           z3.And(d8(t) >= d8(x) + 1, ctx.R(c), sel(ctx.P, c) == x, d8(c) == d8(x) + 1, 0 <= r, r < K, ctx.kid(x, r) == c))
+        st("the-value-of-that-child-lists-the-tip", z3.And(0 <= hp8(c, t), hp8(c, t) < hn8(c), hl8(c, hp8(c, t)) == t, hn8(c) == sel(ns, r)))
+        st("the-position-of-the-tip-lies-in-the-segment-of-that-child", z3.And(off(r) <= hp8(x, t), hp8(x, t) < off(r + 1), off(r + 1) <= off(K), seg(hp8(x, t)) == r))
+
+    GP = ["paths-attached-to-this-tree", "every-path-starts-at-the-root", "consecutive-entries-are-parent-and-child", "every-path-ends-at-a-childless-node",
+          "every-childless-node-ends-a-path", "one-path-per-tip"]
+    R.add(f"{TREE}:Tree.get_paths", prop="C08", setup=gp_setup,
+          ensures=[(w, gp_post(w)) for w in GP],
+          options=dict(OPTS, traverse_rule=Rule(gp_J, Qe=gp_Qe, Ql=gp_Ql, modifies=[("path_dic", "intlist-by-value")],
+                                                enter_kind=lambda E: _fresh_frozen_ints(E), leave_kind=lambda E: X.LList.fresh(E, "paths"),
+                                                leave_args=lambda E, K: _fresh_lll(E, K), ghost_enter=gp_ghost_enter, ghost_leave=gp_ghost_leave),
+                       hints={"post/every-path-ends-at-a-childless-node": gp_hint, "post/every-childless-node-ends-a-path": gp_hint_complete,
+                              "leave/invariant-preserved/a-node-below-a-left-node-is-left": gp_hint_below,
+                              "leave/invariant-preserved/the-value-of-a-left-node-lists-every-entered-tip-below-it": gp_hint_leave}),
+          notes="whole function, trees of any size (traverse client rule with list-valued callback results); the input tree is frozen")
+
+
+def _fresh_frozen_ints(E):
+    n = z3.Int(fresh_name("pre_len"))
+    E.assume(n >= 0)
+    return X.frozen_ints(z3.Const(fresh_name("pre"), X.AII), n, "pre_path")
+
+
+def _fresh_lll(E, K):
+    a = X.LLList.fresh(E, K, "kidpaths")
+    return a, a.get
+
 
 def register(R):  # noqa: F811
     _reg8(R)
